@@ -19,7 +19,6 @@ type c11Obs struct {
 	Name B    `json:"name"`
 }
 
-
 type c11Engine struct{}
 
 func (c11Engine) Isolated() bool { return false }
